@@ -74,7 +74,11 @@ fn prepare_resources(v: &AView, gates: &Gates) {
         }
         AView::Async(_, res) => res.iter().for_each(|c| prepare_resources(c, gates)),
         AView::ResView(g, vs) | AView::ResUntil(g, vs) => {
-            let rx = gates.borrow_mut().remove(g).unwrap_or_else(|| panic!("gate {g} used twice"));
+            // a gate that is already taken: the SAME resource is read at several places (under several boundaries)
+            let Some(rx) = gates.borrow_mut().remove(g) else {
+                vs.iter().for_each(|c| prepare_resources(c, gates));
+                return;
+            };
             let mut rx = Some(rx);
             let g = *g;
             let r = create_isomorphic_resource(move || {
